@@ -158,6 +158,17 @@ def _sigma(sp, kind, val):
 # ------------------------------------------------------------------------------------------
 # building blocks used in place by the shipped solvers
 
+class _OopOnly(odl.Operator):
+    """A user-style operator that only implements out-of-place evaluation (like the NuclearNorm
+    proximal): x -> x * x + 1."""
+
+    def __init__(self, sp):
+        super(_OopOnly, self).__init__(sp, sp, linear=False)
+
+    def _call(self, x):
+        return x * x + 1
+
+
 def _blocks(sp):
     v = _el(sp, _G)
     w = _el(sp, _SIG)
@@ -175,6 +186,7 @@ def _blocks(sp):
         'prox_box': PO.proximal_box_constraint(sp, -1.0, 1.0)(1.0),
         'prox_l2ball': PO.proximal_convex_conj_l2(sp)(1.0),
         'prox_l2sq_g_elem': PO.proximal_l2_squared(sp, g=v)(w),
+        'OopOnly': _OopOnly(sp),
     }
     return dict((k, o) for k, o in out.items() if o is not None)
 
@@ -203,13 +215,13 @@ def _wrappers(sp, A, B):
 BLOCK_NAMES = ['ScalingOperator', 'ScalingOperator0', 'IdentityOperator', 'ZeroOperator',
                'ConstantOperator', 'MultiplyOperator[elem]', 'MultiplyOperator[scalar]',
                'ResidualLike[I-c]', 'PowerOperator2', 'prox_box', 'prox_l2ball',
-               'prox_l2sq_g_elem']
+               'prox_l2sq_g_elem', 'OopOnly']
 WRAP_NAMES = ['OperatorSum', 'OperatorSub', 'OperatorComp', 'OperatorLeftScalarMult',
               'OperatorRightScalarMult', 'OperatorLeftVectorMult', 'OperatorRightVectorMult',
               'OperatorVectorSum', 'OperatorPointwiseProduct', 'Neg',
               'FunctionalLeftVectorMult[inner]', 'FunctionalLeftVectorMult[L2sq]', 'Power3']
 WRAP_LEAVES = ['ScalingOperator', 'MultiplyOperator[elem]', 'ResidualLike[I-c]', 'prox_box',
-               'prox_l2sq_g_elem', 'PowerOperator2']
+               'prox_l2sq_g_elem', 'PowerOperator2', 'OopOnly']
 
 
 # ------------------------------------------------------------------------------------------
@@ -285,6 +297,14 @@ def configs(tier):
                     for sv in sig_vals:
                         cfgs.append({'kind': 'functional', 'name': spec.name, 'space': sp,
                                      'opt': o, 'via': via, 'sigma': sv})
+    # gradient operators (solvers evaluate them into their own work arrays, possibly the iterate)
+    for spec in FR.SPECS:
+        for sp in spec.spaces[:2]:
+            for oi in range(len(spec.opts)):
+                cfgs.append({'kind': 'gradient', 'name': spec.name, 'space': sp, 'oi': oi, 'comb': 'plain'})
+    for comb in ('product', 'quotient', 'sum', 'comp', 'translated', 'rightscal', 'quadpert'):
+        for nm in ('L2NormSquared', 'Huber', 'KullbackLeibler', 'L2Norm'):
+            cfgs.append({'kind': 'gradient', 'name': nm, 'space': 'rn3', 'oi': 0, 'comb': comb})
     # derived functionals
     for der in ('translated', 'leftscal', 'rightscal', 'rightscal_neg', 'quadpert', 'scalarsum',
                 'bregman', 'sepsum', 'defaultconj'):
@@ -332,6 +352,8 @@ def _site(cfg):
         return '%s(%s).%s' % (cfg['name'], o, cfg['via'])
     if k == 'derived':
         return '%s.%s.proximal' % (cfg['name'], cfg['der'])
+    if k == 'gradient':
+        return 'gradient:%s[%s]' % (cfg['name'], cfg['comb'])
     if k == 'block':
         return 'block:%s' % cfg['name']
     if k == 'wrapper':
@@ -396,6 +418,27 @@ def _build(cfg):
             return g.proximal(cfg['sigma']), g.domain
         g = _derived(f, cfg['der'], sp)
         return g.proximal(cfg['sigma']), sp
+    if k == 'gradient':
+        sp = S.build(cfg['space'])
+        spec = FR.BY_NAME[cfg['name']]
+        f = spec.build(sp, spec.opts[cfg['oi']])
+        g = odl.solvers.L2NormSquared(sp) + 1.0
+        c = cfg['comb']
+        if c == 'product':
+            f = odl.solvers.FunctionalProduct(f, g)
+        elif c == 'quotient':
+            f = odl.solvers.FunctionalQuotient(f, g)
+        elif c == 'sum':
+            f = f + g
+        elif c == 'comp':
+            f = f * odl.ScalingOperator(sp, 2.0)
+        elif c == 'translated':
+            f = f.translated(_el(sp, _GP))
+        elif c == 'rightscal':
+            f = f * 2.0
+        elif c == 'quadpert':
+            f = odl.solvers.FunctionalQuadraticPerturb(f, 1.5, _el(sp, _G), 0.5)
+        return f.gradient, sp
     if k == 'block':
         sp = S.build(cfg['space'])
         return _blocks(sp).get(cfg['name']), sp
@@ -479,6 +522,9 @@ def run(cfg):
             continue
         if not np.array_equal(S.to_flat(x), x0):
             first.setdefault('input_modified', 'x=%s' % z.tolist())
+        if ref.dtype.kind in 'fc' and not np.all(np.isfinite(ref)):
+            skipped += 1        # x is a singular point of this operator (outside its domain)
+            continue
         # (c) aliased
         y = x.copy()
         try:
